@@ -15,8 +15,8 @@ from props import c03
 
 LEVEL = "model_checking"
 
-QUICK = [("L1", 2, 2), ("L2", 2, 2), ("L3", 2, 1), ("L2", 3, 1)]
-THOROUGH = [("L1", 3, 2), ("L2", 3, 2), ("L3", 3, 1), ("L4", 3, 1), ("L2", 4, 1)]
+QUICK = [("L0", 1, 1), ("L0b", 1, 1), ("L1b", 2, 1), ("L1", 2, 2), ("L2", 2, 2), ("L3", 2, 1), ("L2", 3, 1)]
+THOROUGH = [("L0", 1, 1), ("L0b", 1, 1), ("L1b", 3, 2), ("L1", 3, 2), ("L2", 3, 2), ("L3", 3, 1), ("L4", 3, 1), ("L2", 4, 1)]
 
 
 def sig_of(m):
@@ -149,6 +149,16 @@ def run(ctx):
     mf = ctx.path("msgs.ndjson")
     n, states, trans = c03.generate(ctx, sd, QUICK if ctx.quick else THOROUGH, mf)
     drv = gobuild.build(ctx, "encread", also=["vwalk"])
+    # schema-directed family: populated values of the rendered schema types with every word replaced by boundary patterns
+    sf = ctx.path("samples.ndjson")
+    rc, out, err = gobuild.run_driver(ctx, drv, ["samples", sf], timeout=300)
+    if rc != 0 or not os.path.exists(sf):
+        raise Inconclusive("encread samples failed rc=%d: %s" % (rc, err[-1500:]))
+    with open(sf) as f, open(mf, "a") as g:
+        extra = f.readlines()
+        g.writelines(extra)
+    n += len(extra)
+    ctx.cover(schema_directed_samples=len(extra))
     env = {"VERIF_C01_MUT": "2" if ctx.quick else "8"}
     faults, summ = run_parallel(ctx, drv, mf, n, env)
     for m in faults:
